@@ -63,6 +63,7 @@ type deferred struct {
 }
 
 type frame struct {
+	cur              ssa.Instruction // instruction being executed (fault reports)
 	i                *interpreter
 	caller           *frame
 	fn               *ssa.Function
@@ -535,6 +536,15 @@ func runFrame(fr *frame) {
 		switch p.(type) {
 		case engineError, pathAbort, threadKilled:
 			panic(p) // engine-level unwinding: target defers do not run
+		case runtime.Error:
+			// an interpreter fault (e.g. a failed type assertion on a value representation): report where
+			if re := p.(runtime.Error); strings.Contains(re.Error(), "interp.") && fr.cur != nil {
+				extra := ""
+				if b, ok := fr.cur.(*ssa.BinOp); ok {
+					extra = fmt.Sprintf(" operands %T(%v: %s) %T(%v: %s)", fr.env[b.X], b.X, b.X.Type(), fr.env[b.Y], b.Y, b.Y.Type())
+				}
+				panic(engineError{"interpreter fault: " + re.Error() + " in " + fr.fn.String() + " at " + fr.i.prog.Fset.Position(fr.cur.Pos()).String() + " (" + fr.cur.String() + ")" + extra})
+			}
 		}
 		fr.panicking = true
 		fr.panic = p
@@ -569,6 +579,7 @@ func runFrame(fr *frame) {
 			if pp := fr.i.funcsRun; pp != nil {
 				pp[fr.fn]++
 			}
+			fr.cur = instr
 			if visitInstr(fr, instr) == kReturn {
 				return
 			}
@@ -604,6 +615,9 @@ func executePhis(fr *frame) []ssa.Instruction {
 				fmt.Fprintln(os.Stderr, "\t", phi.Name(), "=", phi)
 			}
 			fr.phitemps = append(fr.phitemps, fr.get(phi.Edges[predIndex]))
+			if os.Getenv("GOSYM_DEBUG_PHI") != "" && strings.Contains(phi.Type().String(), os.Getenv("GOSYM_DEBUG_PHI")) {
+				fmt.Fprintf(os.Stderr, "PHI %s pred=%d edge=%v (%T) -> %T %v\n", phi.Name(), predIndex, phi.Edges[predIndex], phi.Edges[predIndex], fr.phitemps[len(fr.phitemps)-1], fr.phitemps[len(fr.phitemps)-1])
+			}
 		}
 		for i, phi := range phis {
 			fr.env[phi.(*ssa.Phi)] = fr.phitemps[i]
